@@ -59,57 +59,14 @@ def r3_1(ctx):
 
 
 def _segment_paths(rb):
-    """Normal form of a function that turns a stream of (text, style, is_control) segments into output pieces:
-    (iteration source expr, [text, style, control] names, [(facts dict, emitted expr text or None)], anchor node).
-    Accepted shapes: a `for t, s, c in <src>` loop whose body appends to a list (any nesting / guard clauses /
-    conditional expressions), or a list comprehension / generator expression over <src> (filters + element)."""
-    from ..astutil import inline, single_defs
-    from ..yieldpaths import Enumerator, Unsupported, canon_test
-    sd = single_defs(rb.node)
-    out = []
-    # comprehension / generator form
-    for x in walk_local(rb.node):
-        if isinstance(x, (ast.ListComp, ast.GeneratorExp)) and len(x.generators) == 1 and isinstance(x.generators[0].target, ast.Tuple) and len(x.generators[0].target.elts) == 3:
-            ge = x.generators[0]
-            names = [norm(e) for e in ge.target.elts]
-            en = Enumerator(rb.node)
-            en.defs = {k: v for k, v in en.defs.items() if k not in names}
-            base = []
-            for cond in ge.ifs:
-                base += canon_test(inline(cond, en.defs), True)
-            paths = []
-            for facts, txt in en.forks(x.elt):
-                d = dict(base)
-                d.update({e[1]: e[2] for e in facts})
-                paths.append((d, txt))
-            # the filtered-out case(s): no emission; represented by the negation of each filter separately
-            for cond in ge.ifs:
-                paths.append((dict(canon_test(inline(cond, en.defs), False)), None))
-            return ge.iter, names, paths, x
-    # loop form
-    for lp in walk_local(rb.node):
-        if isinstance(lp, ast.For) and isinstance(lp.target, ast.Tuple) and len(lp.target.elts) == 3:
-            names = [norm(e) for e in lp.target.elts]
-            en = Enumerator(rb.node)
-            en.defs = {k: v for k, v in en.defs.items() if k not in names}
-            try:
-                bodies = en.block(lp.body)
-            except Unsupported as u:
-                raise AnalysisError(f"{rb.fq}: emit loop uses a statement outside the path normal form ({u})")
-            paths = []
-            for ev, _t in bodies:
-                d = {e[1]: e[2] for e in ev if e[0] == "cond"}
-                emits = [e[1] for e in ev if e[0] == "do" and ".append(" in e[1]]
-                others = [e for e in ev if e[0] in ("yield", "yieldfrom", "return", "raise")]
-                if others:
-                    raise AnalysisError(f"{rb.fq}: emit loop body yields/returns; not the expected accumulate-and-join shape")
-                if not emits:
-                    paths.append((d, None))
-                for em in emits:
-                    c = ast.parse(em, mode="eval").body
-                    paths.append((d, norm(c.args[0]) if isinstance(c, ast.Call) and len(c.args) == 1 else em))
-            return lp.iter, names, paths, lp
-    raise AnchorVanished(f"{rb.fq}: neither an emit loop `for text, style, is_control in ...` nor a comprehension over the segments was found")
+    """(iteration source expr, placeholder names, [(facts, emitted text|None)], anchor) of the one emitter in `rb`
+    (common.segment_streams: loops, comprehensions, nested generators, pre-filters of the source are one normal form)"""
+    from .common import segment_streams
+    streams = [st for st in segment_streams(rb) if any(e is not None for _d, e in st[1])]
+    if len(streams) != 1:
+        raise AnchorVanished(f"{rb.fq}: expected exactly one loop / comprehension turning the (text, style, is_control) segments into output pieces, found {len(streams)}")
+    src, paths, anchor = streams[0]
+    return src, ["TEXT", "STYLE", "CTRL"], paths, anchor
 
 
 def r3_2(ctx):
@@ -164,6 +121,20 @@ def r3_3(ctx):
     anchor_stmt = anchor
     while not isinstance(anchor_stmt, ast.stmt):
         anchor_stmt = rb.module.parent_of[anchor_stmt]
+    # an emitter written as a nested generator function is "used" where that function is called
+    cur = rb.module.parent_of.get(anchor_stmt)
+    nested = None
+    while cur is not None and cur is not rb.node:
+        if isinstance(cur, ast.FunctionDef):
+            nested = cur
+        cur = rb.module.parent_of.get(cur)
+    if nested is not None:
+        calls = [c for c in walk_local(rb.node) if isinstance(c, ast.Call) and isinstance(c.func, ast.Name) and c.func.id == nested.name]
+        if len(calls) != 1:
+            raise AnalysisError(f"{rb.fq}: nested emitter {nested.name}() is not called exactly once")
+        anchor_stmt = calls[0]
+        while not isinstance(anchor_stmt, ast.stmt):
+            anchor_stmt = rb.module.parent_of[anchor_stmt]
     use_nodes = g.nodes_of(anchor_stmt)
     var = norm(src)
     strips = [n for n in g.stmt_nodes() if n.kind == "stmt" and isinstance(n.stmt, ast.Assign) and norm(n.stmt.targets[0]) == var and "remove_color(" in norm(n.stmt.value)]
